@@ -45,7 +45,39 @@ def run_native(contract, case, P):
     return dict(outcome=desc, posts=posts, synthetic=bool(ctx.get('synthetic', False)))
 
 
-def candidate_models(contract, case, hyps, goal, bounds=(2, 3, 4), timeout_ms=8000):
+def search_model(fs, schema, timeout_ms):
+    """z3 on the bounded expansion in a helper process that is killed at the deadline"""
+    import subprocess
+    import sys
+    import tempfile
+    sol = z3.Solver()
+    sol.add(*fs)
+    job = dict(smt2=sol.to_smt2(), schema=[list(x) for x in schema], timeout_ms=timeout_ms)
+    with tempfile.NamedTemporaryFile('w', suffix='.json', delete=False) as f:
+        json.dump(job, f)
+        path = f.name
+    try:
+        root = os.path.dirname(os.path.dirname(os.path.abspath(__file__)))
+        env = dict(os.environ, PYTHONPATH=root + ':' + os.environ.get('PYTHONPATH', ''))
+        p = subprocess.run([sys.executable, '-m', 'pyvc.modelsearch', path], capture_output=True, text=True,
+                           timeout=timeout_ms / 1000.0 + 6, env=env, cwd=root)
+        out = (p.stdout or '').strip().splitlines()
+        if not out:
+            return None
+        r = json.loads(out[-1])
+        if r.get('result') != 'sat':
+            return None
+        return native.Params(r['params'])
+    except (subprocess.TimeoutExpired, ValueError):
+        return None
+    finally:
+        try:
+            os.unlink(path)
+        except OSError:
+            pass
+
+
+def candidate_models(contract, case, hyps, goal, bounds=(3, 2, 4), timeout_ms=6000, deadline=None):
     """yield (bound, used_menu, Params) for satisfiable bounded expansions"""
     from .engine import Harness, reset_globals
     # menu constraints are formulas over the harness symbols (names are deterministic)
@@ -72,18 +104,18 @@ def candidate_models(contract, case, hyps, goal, bounds=(2, 3, 4), timeout_ms=80
     if hard and soft:
         tiers.append(hard)
     tiers.append([])
+    import time as _t
     for extra in tiers:
         for b in bounds:
+            if deadline is not None and _t.time() > deadline:
+                return
             try:
                 fs = quant.bounded_expand(base + extra, size_syms, b)
             except z3.Z3Exception:
                 continue
-            s = z3.Solver()
-            s.set('timeout', timeout_ms)
-            s.add(*fs)
-            if s.check() != z3.sat:
+            P = search_model(fs, schema, timeout_ms)
+            if P is None:
                 continue
-            P = native.params_from_model(s.model(), schema)
             key = json.dumps(P, sort_keys=True, default=str)
             if key in seen:
                 continue
@@ -91,15 +123,73 @@ def candidate_models(contract, case, hyps, goal, bounds=(2, 3, 4), timeout_ms=80
             yield b, bool(extra), P
 
 
-def try_refute(contract, case, ob_name, ob_kind, hyps_smt2, goal_smt2):
-    """returns dict(status='reproduced'|'not-reproduced'|'no-model', params, native, note)"""
+def random_natives(contract, case, n, seed):
+    """n random small realisable instances, run natively; yields (params, native result)"""
+    import random
+    rng = random.Random(seed * 7919 + hash(str(sorted(case.items()))) % 100000 if isinstance(case, dict) else seed)
+    schema = contract.schema(case)
+    made = 0
+    attempts = 0
+    while made < n and attempts < 6 * n:
+        attempts += 1
+        if hasattr(contract, 'sample'):
+            P = contract.sample(case, rng)
+        else:
+            P = native.sample_params(schema, rng)
+        try:
+            nat = run_native(contract, case, P)
+        except native.NotRealisable:
+            continue
+        except Exception as e:
+            nat = dict(outcome='materialisation error', posts={'__post_error__': f'{type(e).__name__}: {e}'}, synthetic=False)
+        made += 1
+        yield P, nat
+
+
+def is_hit(ob_name, ob_kind, nat, strict=False):
+    failing = [k for k, v in nat['posts'].items() if v is False]
+    hit = ob_name in failing
+    if strict:
+        # for obligations without a VC: any failing native predicate of the same property counts, but a generic
+        # "modelled" placeholder obligation is attributed to whatever fails
+        prop = ob_name.split('.')[0]
+        return (hit or any(k.split('.')[0] == prop for k in failing)), failing
+    if not hit and ob_kind != 'post':
+        # safety obligation: natively it shows as an exception the contract does not allow
+        hit = nat['outcome'].startswith('raise') and any('no_spurious_raise' in k or 'refuses_only' in k for k in failing)
+    if not hit:
+        # the run-time twin may phrase a clause set-based where the VC is structural (e.g. mapping rows):
+        # a failing native predicate of the same property on this model is the same violation
+        prop = ob_name.split('.')[0]
+        hit = any(k.split('.')[0] == prop for k in failing)
+    return hit, failing
+
+
+def try_refute(contract, case, ob_name, ob_kind, hyps_smt2, goal_smt2, cache=None, budget_s=45):
+    """returns dict(status='reproduced'|'not-reproduced'|'no-model', params, native, note).
+    cache: list of (params, native result) of earlier searches for the same case -- a model that already
+    falsifies this obligation natively is reused."""
+    import time as _t
     if not hasattr(contract, 'native'):
         return dict(status='no-twin', note='contract has no run-time twin')
+    for (P0, nat0, b0) in (cache or []):
+        hit, failing = is_hit(ob_name, ob_kind, nat0)
+        if hit:
+            return dict(status='reproduced', params=P0, native=nat0, bound=b0, failing=failing, note='model shared with another obligation of this case')
+    # cheap first: random small instances on the real code (each a potential failing input)
+    if cache is not None and not any(x[2] == 'random' for x in cache):
+        for P, nat in random_natives(contract, case, n=int(os.environ.get('PYVC_RANDOM_REFUTE', '120')), seed=1):
+            cache.append((P, nat, 'random'))
+        for (P0, nat0, b0) in cache:
+            hit, failing = is_hit(ob_name, ob_kind, nat0)
+            if hit:
+                return dict(status='reproduced', params=P0, native=nat0, bound=b0, failing=failing, note='random small instance')
     hyps = list(z3.parse_smt2_string(hyps_smt2))
     goal = z3.And(*list(z3.parse_smt2_string(goal_smt2)))
     last = None
     tried = 0
-    for b, used_menu, P in candidate_models(contract, case, hyps, goal):
+    deadline = _t.time() + budget_s
+    for b, used_menu, P in candidate_models(contract, case, hyps, goal, deadline=deadline):
         tried += 1
         try:
             nat = run_native(contract, case, P)
@@ -109,21 +199,13 @@ def try_refute(contract, case, ob_name, ob_kind, hyps_smt2, goal_smt2):
         except Exception as e:
             last = dict(status='not-reproduced', params=P, note=f'materialisation failed: {type(e).__name__}: {e}', bound=b)
             continue
-        failing = [k for k, v in nat['posts'].items() if v is False]
-        short = ob_name
-        hit = short in failing
-        if not hit and ob_kind != 'post':
-            # safety obligation: natively it shows as an exception the contract does not allow
-            hit = nat['outcome'].startswith('raise') and any('no_spurious_raise' in k or 'refuses_only' in k for k in failing)
-        if not hit:
-            # the run-time twin may phrase a clause set-based where the VC is structural (e.g. mapping rows):
-            # a failing native predicate of the same property on this model is the same violation
-            prop = short.split('.')[0]
-            hit = any(k.split('.')[0] == prop for k in failing)
+        if cache is not None:
+            cache.append((P, nat, b))
+        hit, failing = is_hit(ob_name, ob_kind, nat)
         if hit:
             return dict(status='reproduced', params=P, native=nat, bound=b, menu=used_menu, failing=failing)
         last = dict(status='not-reproduced', params=P, native=nat, bound=b, menu=used_menu, failing=failing,
                     note='real call satisfied the predicate on this model')
         if tried >= 9:
             break
-    return last or dict(status='no-model', note='no model of the bounded expansion within the size bounds')
+    return last or dict(status='no-model', note='no model of the bounded expansion within the size bounds / time budget')
